@@ -20,7 +20,12 @@ def run(tier, seed):
                                  "--fmt", str([3, 3, 2, 1][i % 4]), "--blocks", str(rng.choice([36, 40, 48])),
                                  "--cpus", str(rng.choice([2, 4, 8])), "--keys", str(rng.choice([4, 5, 6])),
                                  "--ttl", "1", "--end", "drop", "--flushpct", "14",
-                                 "--maximages", "300" if tier == "quick" else "1500", "--refill", "1"]))
+                                 "--maximages", "300" if tier == "quick" else "1500", "--refill", "1"]
+                    + (["--edges", "60"] if i % 4 == 3 else [])))
+    for i in range(4 if tier == "quick" else 24):   # v1 devices, record sizes at block boundaries (the v1 header is 8 bytes shorter)
+        jobs.append(("v1edge%d" % i, ["--seed", str(rng.randrange(1 << 30)), "--steps", "50", "--fmt", "1", "--blocks", str(rng.choice([26, 30, 34])),
+                                      "--cpus", "2", "--keys", "3", "--ttl", "0", "--end", "drop", "--flushpct", "22", "--edges", "85",
+                                      "--maximages", "900"]))
     jobs += ce.full_device_jobs(rng, 8 if tier == "quick" else 48, maximages="300" if tier == "quick" else "1500")
     # MC: write-behind / journal / retirement protocol, every crash image of every reachable state
     mc_viol = []
